@@ -159,3 +159,8 @@ func constIntFromConstant(k *types.Const) (int64, bool) {
 	v, ok := constantInt64(k)
 	return v, ok
 }
+
+func isSliceType(t types.Type) bool {
+	_, ok := t.Underlying().(*types.Slice)
+	return ok
+}
